@@ -10,5 +10,5 @@ func TestMC(t *testing.T) {
 	var seqs []*mc.Seq
 	seqs = append(seqs, seqs40()...)
 	seqs = append(seqs, seqs41()...)
-	mc.Main(t, scenarios(), seqs)
+	mc.Main(t, append(scenarios(), scenariosLocks()...), seqs)
 }
